@@ -151,8 +151,17 @@ def dump(sp):
 
 
 def wellformed(sp):
-    return len(sp.layers) == len(sp.interfaces) and all(hasattr(i, "specular_reflection_matrix") for i in sp.interfaces) \
+    ok = len(sp.layers) == len(sp.interfaces) and all(hasattr(i, "specular_reflection_matrix") for i in sp.interfaces) \
         and all(hasattr(l, "thickness") and hasattr(l, "microstructure") for l in sp.layers)
+    if not ok:
+        return False
+    # the derived depth views agree with the layers the medium holds now (they are read after every operation, as a user plotting a
+    # profile between two edits would): total thickness = sum prescribed, one interface depth more than layers
+    th = np.array([float(l.thickness) for l in sp.layers])
+    bottom = np.asarray(sp.bottom_layer_depths, dtype=float)
+    z = np.asarray(sp.z, dtype=float)
+    return (bottom.shape == th.shape and np.allclose(bottom, np.cumsum(th), rtol=1e-12, atol=0) and len(z) == len(th) + 1
+            and abs(float(sp.thickness) - float(th.sum())) <= 1e-12 * max(1.0, float(th.sum())) and (len(th) == 0 or abs(z[-1] - th.sum()) <= 1e-9))
 
 
 def run_history(ops, nprng=None):
